@@ -187,6 +187,30 @@ pub fn dispatch(kind: &str, a: &[&str]) -> Option<String> {
             }
             out.join(" | ")
         }
+        // Operator::symbol / name / Display of every Operator token of the tape (src/text/operator.rs)
+        ("tt.ops", [h]) => {
+            let d = unhex(h);
+            match TextTape::from_slice(&d) {
+                Ok(t) => {
+                    let v: Vec<String> = t
+                        .tokens()
+                        .iter()
+                        .filter_map(|x| match x {
+                            TextToken::Operator(o) => Some(format!(
+                                "{}:{}:{}:{}",
+                                op_code(o),
+                                hex(o.symbol().as_bytes()),
+                                o.name(),
+                                hex(format!("{}", o).as_bytes())
+                            )),
+                            _ => None,
+                        })
+                        .collect();
+                    if v.is_empty() { "ok -".to_string() } else { format!("ok {}", v.join(" ")) }
+                }
+                Err(_) => "ERR".to_string(),
+            }
+        }
         // <<< a_c01
         _ => return None,
     };
